@@ -194,7 +194,13 @@ pub fn run_c10(ctx: &mut Ctx, shard: usize, nshards: usize) {
     // exhaustive small-alphabet bodies
     if ctx.scale >= 0.5 {
         for words in 0..=if ctx.thorough { 3 } else { 2 } {
-            gb::sdes_small_alphabet(words, shard, nshards, &mut |b| check_c10(ctx, b));
+            let n = gb::sdes_small_alphabet(words, shard, nshards, &mut |b| check_c10(ctx, b));
+            ctx.class_add(&format!("exhaustive:sdes-bodies({words} words over {{0,1,2,8}} x 3 ssrc prefixes x padding 0/4/8 x SC)"), n);
+        }
+        // a second alphabet whose lengths make items end exactly at the end of a padding trailer
+        for words in 1..=2 {
+            let n = gb::sdes_small_alphabet_over([0, 1, 4, 6], words, shard, nshards, &mut |b| check_c10(ctx, b));
+            ctx.class_add(&format!("exhaustive:sdes-bodies({words} words over {{0,1,4,6}} x 3 ssrc prefixes x padding 0/4/8 x SC)"), n);
         }
     } else {
         let mut k = 0u64;
